@@ -57,6 +57,7 @@ func singles() []ld.Opts {
 		{},
 		{SkipValidation: true}, {SkipInterpolation: true}, {SkipNormalization: true}, {SkipConsistencyCheck: true},
 		{SkipExtends: true}, {SkipInclude: true}, {SkipResolveEnvironment: true}, {SkipDefaultValues: true}, {NoResolvePaths: true},
+		{SkipInterpolation: true, NilInterpolate: true}, {NilInterpolate: true},
 	}
 }
 
